@@ -279,6 +279,10 @@ class Session(object):
         if len(self.cons) < MAX_CONS:
             ev += ["E:" + n for n, _ in templates(self.bools(), self.ints())]
         ev.append("F")
+        # solve() in the same session: registers every variable declared so far as an answer key (once each) and solves;
+        # the find_answer that follows must not be disturbed by the None / decided values solve() leaves behind
+        if self.kinds:
+            ev.append("S")
         return ev
 
     def apply(self, ev, part=None, hist=None):
@@ -297,6 +301,30 @@ class Session(object):
                     break
             else:
                 raise harness_error("template %s not enabled" % name)
+        elif ev == "S":
+            import warnings
+
+            for v in self.s.variables:
+                if not self.s.is_answer_key[v.id]:
+                    self.s.add_answer_key(v)
+            variables = list(self.s.variables)
+            try:
+                with warnings.catch_warnings():
+                    warnings.simplefilter("ignore")
+                    r = self.s.solve(backend=BACKEND)
+            except Exception as e:
+                if part is not None:
+                    part.violation("session-solve-raises-" + type(e).__name__, {"form": "session", "history": list(hist)}, {"exception": repr(e)[:200]})
+                r = None
+            if part is not None and r is not None:
+                sols = refsem.solutions(variables, list(self.s.constraints))
+                part.count("evaluations")
+                part.count("session_solves")
+                facts = refsem.exact_facts(variables, sols, [True] * len(variables)) if sols else None
+                got = [v.sol for v in variables] if r else None
+                if (r is True) != bool(sols) or (sols and got != facts):
+                    part.violation("session-solve-wrong-facts", {"form": "session", "history": list(hist)}, {"returned": r, "sol": repr(got), "expected": repr(facts)})
+            self.ever_solved = True
         elif ev == "F":
             if part is not None:
                 self.judge(part, hist)
@@ -317,7 +345,7 @@ class Session(object):
         # differential: a fresh Solver given the same program by a solve-free history
         fresh = Session()
         for e in hist:
-            if e != "F":
+            if e not in ("F", "S"):
                 fresh.apply(e)
         try:
             res2 = fresh.s.find_answer(backend=BACKEND)
@@ -327,7 +355,7 @@ class Session(object):
             part.violation("session-differs-from-fresh", case, {"in_session": res, "fresh": res2})
 
     def canon(self):
-        return (tuple(self.kinds), tuple(sorted(self.cons)), self.ever_solved)
+        return (tuple(self.kinds), tuple(sorted(self.cons)), self.ever_solved, tuple(self.s.is_answer_key))
 
 
 def harness_error(msg):
@@ -438,7 +466,7 @@ def main(tier, seed, only=None):
         "(%s); each boolean root asserted, negated and checked for its whole truth table, each integer root compared with "
         "its min/max/max+1 (k<=1: every) attained value; <=1-operator stratum repeated under 4 more domain pairs "
         "(singleton, negative, wide); conjunctions of every ordered pair of <=1-operator boolean terms.  E2: BFS over sessions "
-        "of declare/ensure/find_answer events to depth %d (<= %d variables, <= %d constraints) with canonical-state dedup; "
+        "of declare/ensure/find_answer/solve events to depth %d (<= %d variables, <= %d constraints) with canonical-state dedup; "
         "each find_answer judged against brute-force solutions and against a fresh Solver.  Non-trivial = programs whose "
         "tree reached the backend (not folded by Python), counted per verdict." % (", k=2" if tier != "quick" else "", "k=2 quick; FULL k=2 and MIN k=3 thorough", depth, MAX_VARS, MAX_CONS),
     )
